@@ -49,11 +49,19 @@ def KidsInv (u : Text → Text) (ph : Ph) (c : Cls) (ks : List Node) : Prop :=
 /-- some child is not a whitespace leaf (`_stripws_parenthesis` empties a group of whitespace and then indexes it) -/
 def hasNW (ks : List Node) : Bool := ks.any (fun k => !k.isWhitespace)
 
+/-- the `,` punctuation leaf -/
+def isComma : Node → Bool
+  | .tok t v => t == T.Punctuation && v == [44]
+  | .grp .. => false
+
+/-- some child is neither whitespace nor a comma (an `IdentifierList` must have an item: `AlignedIndentFilter`) -/
+def ilOK (ks : List Node) : Bool := ks.any (fun k => !(k.isWhitespace || isComma k))
+
 mutual
-/-- every group has a non-whitespace child -/
+/-- every group has a non-whitespace child, every `IdentifierList` an item -/
 def nodeNW : Node → Bool
   | .tok _ _ => true
-  | .grp _ ks => hasNW ks && nwL ks
+  | .grp c ks => hasNW ks && (c != .IdentifierList || ilOK ks) && nwL ks
 def nwL : List Node → Bool
   | [] => true
   | k :: ks => nodeNW k && nwL ks
@@ -62,7 +70,7 @@ end
 mutual
 def NodeInv (u : Text → Text) (ph : Ph) : Node → Prop
   | .tok _ _ => True
-  | .grp c ks => KidsInv u ph c ks ∧ hasNW ks = true ∧ ListInv u ph ks
+  | .grp c ks => KidsInv u ph c ks ∧ hasNW ks = true ∧ (c = .IdentifierList → ilOK ks = true) ∧ ListInv u ph ks
 def ListInv (u : Text → Text) (ph : Ph) : List Node → Prop
   | [] => True
   | k :: ks => NodeInv u ph k ∧ ListInv u ph ks
@@ -79,7 +87,8 @@ theorem listInv_append {ph : Ph} {a b : List Node} : ListInv u ph (a ++ b) ↔ L
     fun h k hk => hk.elim (h.1 k) (h.2 k)⟩
 
 theorem nodeInv_grp {ph : Ph} {c : Cls} {ks : List Node} :
-    NodeInv u ph (Node.grp c ks) ↔ KidsInv u ph c ks ∧ hasNW ks = true ∧ ListInv u ph ks := by
+    NodeInv u ph (Node.grp c ks) ↔
+      KidsInv u ph c ks ∧ hasNW ks = true ∧ (c = .IdentifierList → ilOK ks = true) ∧ ListInv u ph ks := by
   simp [NodeInv]
 
 theorem kidsInv_of_not_six {ph : Ph} {c : Cls} {ks : List Node} (h : delimTables c = none) : KidsInv u ph c ks := by
@@ -104,7 +113,7 @@ theorem NodeInv.mono {ph ph' : Ph} (hle : ph.le ph' = true) : (n : Node) → Nod
   | .tok _ _, _ => by simp [NodeInv]
   | .grp c ks, h => by
     rw [nodeInv_grp] at h ⊢
-    exact ⟨h.1.mono hle, h.2.1, ListInv.mono hle ks h.2.2⟩
+    exact ⟨h.1.mono hle, h.2.1, h.2.2.1, ListInv.mono hle ks h.2.2.2⟩
 theorem ListInv.mono {ph ph' : Ph} (hle : ph.le ph' = true) : (ks : List Node) → ListInv u ph ks → ListInv u ph' ks
   | [], _ => by simp [ListInv]
   | k :: ks, h => by
